@@ -200,13 +200,13 @@ theorem unlist_listby_keys (keys : List Val) :
 
 /-- `groupby` likewise: one sub-table per group holding that group's rows of the other columns -/
 theorem groupby_table (t : Table) (by_ : List String) (grp : String) (keys : List Val)
-    (hn : t.nrows ≠ 0) (hb : by_ ≠ []) (hlt : by_.length ≠ t.cols.length)
+    (hn : t.nrows ≠ 0) (hb : by_ ≠ []) (hlt : by_.length ≠ t.cols.length) (hgb : grp ∉ by_)
     (hk : t.keysOf (by_.map .col) = .ok keys) :
     t.groupby by_ grp = .ok (keyColsOf by_ (listbyG keys) ++
       [(grp, (listbyG keys).map fun g => subTable (t.others by_) g.2)]) := by
   have hb' : by_.isEmpty = false := by cases by_ <;> simp_all
   have hl : by_.length ≠ 0 := by cases by_ <;> simp_all
-  simp [Table.groupby, hn, hb', hl, hlt, hk, bind, Except.bind, pure, Except.pure]
+  simp [Table.groupby, hn, hb', hl, hlt, hgb, hk, bind, Except.bind, pure, Except.pure]
 
 /-- **ungroup ∘ groupby, table level**: for a non-empty table, explicit distinct key columns that
 leave at least one other column, and a `grp` name that is not a key, `d.groupby(by).ungroup()` has
@@ -232,7 +232,7 @@ theorem ungroup_groupby (t : Table) (by_ : List String) (grp : String) (keys : L
     rw [h] at this
     simp at this
     exact hkl (List.eq_nil_of_length_eq_zero this.symm)
-  rw [groupby_table t by_ grp keys hn hb hlt hk]
+  rw [groupby_table t by_ grp keys hn hb hlt hgb hk]
   show VTable.ungroup (groupbyTable t by_ grp (listbyG keys)) grp = _
   rw [ungroup_groupbyTable t by_ grp (listbyG keys) hb hnd htn hgb ho hgs]
   congr 3
@@ -269,10 +269,10 @@ theorem listby_nrows (t : Table) (by_ : List String) (keys : List Val)
 
 /-- table level: `d.groupby(by)` has one row (one sub-table) per distinct key -/
 theorem groupby_nrows (t : Table) (by_ : List String) (grp : String) (keys : List Val)
-    (hn : t.nrows ≠ 0) (hb : by_ ≠ []) (hlt : by_.length ≠ t.cols.length)
+    (hn : t.nrows ≠ 0) (hb : by_ ≠ []) (hlt : by_.length ≠ t.cols.length) (hgb : grp ∉ by_)
     (hk : t.keysOf (by_.map .col) = .ok keys) :
     ∃ l, t.groupby by_ grp = .ok l ∧ l.nrows = (listbyG keys).length := by
-  refine ⟨_, groupby_table t by_ grp keys hn hb hlt hk, ?_⟩
+  refine ⟨_, groupby_table t by_ grp keys hn hb hlt hgb hk, ?_⟩
   cases by_ with
   | nil => exact absurd rfl hb
   | cons b bs => simp [keyColsOf, VTable.nrows, List.zipIdx_cons]
